@@ -25,6 +25,9 @@ def main(argv):
     if prop == "--list":
         print(" ".join(sorted(reg)))
         return 0
+    if prop == "--selftest":
+        from . import selftest
+        return selftest.main()
     if prop not in reg:
         print(f"no check registered for {prop}")
         return 2
